@@ -159,7 +159,9 @@ class MidiFile(object):
                         # Key Signature
                         d = event["data"]
                         sharps = self.bytes_to_int(d[0])
-                        minor = self.bytes_to_int(d[0])
+                        minor = self.bytes_to_int(d[1])
+                        if sharps > 127:
+                            sharps -= 256
                         if minor:
                             key = "A"
                         else:
@@ -169,6 +171,8 @@ class MidiFile(object):
                                 key = intervals.major_fourth(key)
                             else:
                                 key = intervals.major_fifth(key)
+                        if minor:
+                            key = key.lower()
                         b.key = Key(key)
                     else:
                         print("Unsupported META event", event["meta_event"])
